@@ -189,4 +189,34 @@ WithKeys(t) == IF t[1] = "L" THEN t
                ELSE IF t[1] = "map" THEN <<"map", [i \in DOMAIN t[2] |-> <<IF i = 1 THEN <<"L">> ELSE <<"X", KeyBytes(i)>>, WithKeys(t[2][i])>>]>>
                ELSE <<t[1], [i \in DOMAIN t[2] |-> WithKeys(t[2][i])]>>
 Decode(bs) == Parse(bs, 1, 0)
+
+-----------------------------------------------------------------------------
+(* Size limits (constants of vm/neovm/constants and vm/neovm/types).  A "wide" value is one container of   *)
+(* kind k holding n leaves (the integer 1; a map holds the keys 1..n), possibly nested inside an outer     *)
+(* array (pos 0 = top level, 1 = outer [W], 2 = outer [1, W]); a "blob" is one byte array of length n.     *)
+(* ArrayValue/StructValue.Append refuse the element number MaxArraySize+1, so the largest array/struct     *)
+(* has exactly MaxArraySize elements; maps have no element limit; a byte array holds at most MaxItemBytes; *)
+(* Serialize refuses an output above MaxItemBytes.  Whatever can be built and serialized must round-trip.  *)
+MaxArraySize == 1024
+MaxItemBytes == 1048576
+VarUintLen(n) == IF n < 253 THEN 1 ELSE IF n <= 65535 THEN 3 ELSE 5
+\* serialized length of the integer key/leaf i (1 <= i < 32768): tag, length, little-endian two's complement bytes
+IntLen(i) == IF i < 128 THEN 3 ELSE 4
+RECURSIVE KeysLen(_)
+KeysLen(n) == IF n = 0 THEN 0 ELSE IntLen(n) + KeysLen(n - 1)
+WideBuildable(k, n) == k = "map" \/ n <= MaxArraySize
+WideSerLen(k, n, pos) == (1 + VarUintLen(n) + 3 * n + (IF k = "map" THEN KeysLen(n) ELSE 0))
+                         + (IF pos = 0 THEN 0 ELSE IF pos = 1 THEN 2 ELSE 5)
+BlobBuildable(n) == n <= MaxItemBytes
+BlobSerLen(n) == 1 + VarUintLen(n) + n
+\* verdict of the design for a limit row: can it be built, is it serialized, and then it must round-trip
+LimitVerdict(r) ==
+    IF r.fam = "wide"
+    THEN [build |-> WideBuildable(r.k, r.n), ser |-> WideBuildable(r.k, r.n) /\ WideSerLen(r.k, r.n, r.pos) <= MaxItemBytes,
+          len |-> WideSerLen(r.k, r.n, r.pos)]
+    ELSE [build |-> BlobBuildable(r.n), ser |-> BlobBuildable(r.n) /\ BlobSerLen(r.n) <= MaxItemBytes, len |-> BlobSerLen(r.n)]
+LimitRows ==
+    [fam : {"wide"}, k : Kinds, n : {0, 1, MaxArraySize - 1, MaxArraySize, MaxArraySize + 1}, pos : 0 .. 2]
+    \cup [fam : {"blob"}, k : {"bytes"}, pos : {0},
+           n : {0, 252, 253, 65535, 65536, MaxItemBytes - 7, MaxItemBytes - 6, MaxItemBytes - 5, MaxItemBytes, MaxItemBytes + 1}]
 =============================================================================
